@@ -689,6 +689,36 @@ theorem world_withdraw_emissions_spec {c : Ctx} {o : Out} (h : World.withdrawEmi
   simp only [Bool.not_eq_true'] at hf'
   exact ⟨c1, c2, c5, c6, c3, c4, hf', i, s, x', hfs, hset, rfl⟩
 
+/-! ### the whole fee collection (Mfi/Model/World.lean: `World.collectFeesIx`) -/
+
+/-- **world_collect_spec**: the permissionless `lending_pool_collect_bank_fees` goes through only in a group that is not paused,
+    on a bank of that group, with the fee ATA of the global fee wallet for the bank's mint; then the insurance vault, the fee
+    vault and the program's ATA receive the whole-token parts of min(bucket, liquidity still available) in that order of claims
+    on the liquidity vault, each bucket falls by exactly what moved to ITS destination, together no more than the vault holds,
+    and nothing else of the books changes (no accrual, no share value, no total). -/
+theorem world_collect_spec {c : Ctx} {ok : Bool} {o : CollectOut} (h : World.collectFeesIx c ok = .ok o) :
+    c.g.paused = false ∧ c.b.group = c.g.key ∧ ok = true ∧
+    o.toInsurance = min c.b.books.feeI (c.vaultAmount * ONE) / ONE ∧
+    o.toGroup = min c.b.books.feeG ((c.vaultAmount - o.toInsurance) * ONE) / ONE ∧
+    o.toProgram = min c.b.books.feeP ((c.vaultAmount - o.toInsurance - o.toGroup) * ONE) / ONE ∧
+    o.books = { c.b.books with feeI := c.b.books.feeI - o.toInsurance * ONE, feeG := c.b.books.feeG - o.toGroup * ONE,
+                               feeP := c.b.books.feeP - o.toProgram * ONE } ∧
+    0 ≤ o.toInsurance ∧ 0 ≤ o.toGroup ∧ 0 ≤ o.toProgram ∧ o.toInsurance + o.toGroup + o.toProgram ≤ c.vaultAmount := by
+  unfold World.collectFeesIx at h
+  obtain ⟨_, hc, h⟩ := Res.bind_ok h
+  obtain ⟨_, hk, h⟩ := Res.bind_ok h
+  obtain ⟨r, hr, h⟩ := Res.bind_ok h
+  injection h with h
+  subst h
+  have hc' := runChecks_ok hc
+  simp only [checks, List.forall_mem_cons, List.not_mem_nil, false_imp_iff, implies_true, and_true] at hc'
+  simp [evalChk, Ctx.env] at hc'
+  obtain ⟨c1, c2⟩ := hc'
+  obtain ⟨e1, e2, e3, e4, e5, e6, n1, n2, n3, n4⟩ := collect_exact hr
+  refine ⟨c1, c2, Bank.chk_ok hk, e1, e2, e3, ?_, n1, n2, n3, n4⟩
+  simp only
+  rw [e4, e5, e6]
+
 end whole_instructions
 
 end Mfi.Props.C19
